@@ -70,7 +70,10 @@ def strategy_(draw, tier):
             'empty_ts': draw(st.sampled_from([None, None, 0.5, 0.75, 1.25])),
             # one flow step also issues a structural update (_add) in every
             # phase after the first batch
-            'spawner': draw(st.sampled_from([None, None] + list(range(n))))}
+            'spawner': draw(st.sampled_from([None, None] + list(range(n)))),
+            # the last deriver of the `steps` dictionary lives in a sibling
+            # compartment (declared after the others, stamping the same store)
+            'sibling': draw(st.booleans())}
 
 
 def strategy(tier):
@@ -132,9 +135,13 @@ def build(spec, ctx):
             inner_flow[n] = [('..', comp[-1], fnames[d]) for d in deps[idx]]
         else:
             inner_flow[n] = [(fnames[d],) for d in deps[idx]]
+    sib = None
+    if spec.get('sibling') and len(ds) >= 2:
+        sib = ds[-1]
     for n in ds:
-        inner_s[n] = mk(n)
-    inner_topo = {n: dict(step_topo) for n in allnames}
+        if n != sib:
+            inner_s[n] = mk(n)
+    inner_topo = {n: dict(step_topo) for n in allnames if n != sib}
     if spawner is not None:
         inner_topo[spawner]['pool'] = ('pool',)
     if inner_p:
@@ -142,6 +149,13 @@ def build(spec, ctx):
     steps = nest(comp, inner_s)
     flow = nest(comp, inner_flow)
     merge(topology, nest(comp, inner_topo))
+    if sib is not None:
+        sib_path = comp[:-1] + ('sib',)
+        done = ('..', comp[-1], 'done') if comp else ('..', 'done')
+        merge(steps, nest(sib_path, {sib: mk(sib)}))
+        merge(topology, nest(sib_path, {sib: {
+            'done': done,
+            'clock': ('..',) * len(sib_path) + ('clock',)}}))
     return processes, steps, flow, topology, (fnames, dp, ds, deps)
 
 
@@ -165,6 +179,8 @@ def run_case(spec):
             res.label('nested.%d' % spec['depth'])
         if spec.get('spawner') is not None:
             res.label('structural_update_in_layer')
+        if spec.get('sibling') and len(ds) >= 2:
+            res.label('deriver_in_sibling_compartment')
         uses_dotdot = spec['dotdot'] and spec['depth'] > 0 and spec['edges']
         if uses_dotdot:
             res.label('flow.dotdot_dependency')
